@@ -362,3 +362,5 @@ def r7_7(cx):
 
 
 RULES = [('R7.1', r7_1), ('R7.2', r7_2), ('R7.3', r7_3), ('R7.4', r7_4), ('R7.5', r7_5), ('R7.6', r7_6), ('R7.7', r7_7)]
+RULES.append(('R7.8', scan_rule(('hcobs::',))))
+FLOORS['R7.8'] = 1
